@@ -371,6 +371,19 @@ func (env *Env) selectField(v Value, name string) Value {
 			return env.selectField(x.Val, name)
 		}
 		if x.Obj == nil {
+			// ghost state of the nil interface: an arbitrary value (such a term is
+			// only meaningful under a guard that excludes nil; in goal position an
+			// unconstrained value cannot help a proof, as an assumption it says nothing)
+			switch ghostKinds[name] {
+			case "bool":
+				return VBool{e.fresh("nilghost", BoolSort)}
+			case "int":
+				return VInt{T: e.fresh("nilghost", BV64), Signed: true}
+			case "uint64":
+				return VInt{T: e.fresh("nilghost", BV64)}
+			case "error":
+				return VErr{e.fresh("nilghost", BV32)}
+			}
 			env.fail("ghost field %s of nil interface", name)
 		}
 		return e.ghostGet(env.st, x.Obj, name)
